@@ -53,6 +53,22 @@ Failed(r) ==
            /\ s \cap xm = SyndromeH(H, Op({}, e.z)) \cap xm
            /\ s \cap zm = SyndromeH(H, Op(e.x, {})) \cap zm
       THEN {} ELSE {"syndrome_sectors"})
+\cup (IF css => \A j \in DOMAIN r.synd :
+           LET s == { t + 1 : t \in AsSet(r.synd[j].s) }
+               xs == MaskSeq(H, xm)  zs == MaskSeq(H, zm) IN
+           /\ r.synd[j].lens = <<Len(xs), Len(zs)>>
+           /\ AsSet(r.synd[j].sx) = { p - 1 : p \in { q \in DOMAIN xs : xs[q] \in s } }
+           /\ AsSet(r.synd[j].sz) = { p - 1 : p \in { q \in DOMAIN zs : zs[q] \in s } }
+      THEN {} ELSE {"extract_x_z_syndrome_is_the_masked_part"})
+\cup (LET a == r.api IN
+      IF /\ a.n_stabilizers = Len(r.stabs)
+         /\ a.qubits_are_qubits /\ a.stabs_are_not_qubits /\ a.stabs_are_stabs
+         /\ a.qubits_are_not_stabs /\ a.typed_membership
+         /\ a.qubit_index = [q \in DOMAIN r.qcoords |-> q - 1]
+         /\ a.stabilizer_index = [q \in DOMAIN r.scoords |-> q - 1]
+         /\ (\A t1, t2 \in DOMAIN a.type_index : t1 # t2 => AsSet(a.type_index[t1]) \cap AsSet(a.type_index[t2]) = {})
+         /\ UNION { AsSet(a.type_index[t]) : t \in DOMAIN a.type_index } = { q - 1 : q \in DOMAIN r.scoords }
+      THEN {} ELSE {"membership_and_index_helpers"})
 \cup (IF \A j \in DOMAIN r.twin : r.twin[j].a = r.twin[j].b THEN {} ELSE {"same_export_in_every_process_and_after_any_history"})
 
 Judged == i = 0 \/ Report(Recs[i].id, Failed(Recs[i]))
